@@ -150,6 +150,7 @@ def run_case(case: Dict[str, Any], ctx) -> None:
             if (case["seed"] >> (j_ % 20)) & 1:
                 p_.requires_grad_(False)
         ctx.count("form:module-with-frozen-parameters")
+        req_in = True  # (with frozen parameters the inputs carry the gradient: some output must stay differentiable)
     has_q = root_case or any(o["op"] in ("linear_f", "nn_linear", "uu_linear", "U_linear", "sdpa") for o in prog["ops"])
     try:
         sim = simulate_fp8(m) if fmt_name == "fp8" else simulate_format(m, fwd, bwd)
